@@ -672,4 +672,46 @@ theorem dfdv_spec (bid : Nat) : ∀ (fuel : Nat) (lm : Array Rat) (post : Array 
 
 end Main
 
+section Root
+variable {st : St} (hinv : Inv st) (hstat : BlockStationary st)
+  (hs : ∀ i : Nat, (st.vars[i]!).scale ≠ 0)
+include hinv hstat hs
+
+/-- the recursion started at any variable `v0` of block `bid` (as `findMinLM` / `findMinLMBetween` do,
+    with `v0 = vars->front()`): every active constraint of the block receives its tree multiplier, and
+    the value returned for the root is the block's stationarity residual (0) -/
+theorem dfdv_root (bid fuel : Nat) (lm : Array Rat) (post : Array Nat) (v0 : Nat)
+    (hv0 : v0 < st.vars.size) (hb : blk st.vars v0 = bid) (hsz : lm.size = st.cons.size)
+    (hok : (computeDfdv st bid fuel lm post v0 none).2.2.2 = true) :
+    (computeDfdv st bid fuel lm post v0 none).2.2.1 = 0 ∧
+    (∀ j : Nat, j < st.cons.size → (st.cons[j]!).active = true → blk st.vars (st.cons[j]!).l = bid →
+      (computeDfdv st bid fuel lm post v0 none).1[j]! = lamOf st j) ∧
+    (∀ j : Nat, (computeDfdv st bid fuel lm post v0 none).1[j]! = lm[j]! ∨
+      ((st.cons[j]!).active = true ∧ (computeDfdv st bid fuel lm post v0 none).1[j]! = lamOf st j)) := by
+  have sp := dfdv_spec hinv hstat hs bid fuel lm post v0 none st.cons.size
+    (Or.inl ⟨rfl, le_refl _⟩) hv0 hb hsz hok
+  -- avoiding the dummy index is no restriction
+  have toDummy : ∀ {a b}, Reach st.cons a b → ReachAvoid st.cons st.cons.size a b :=
+    fun hab => rtg_mono (fun _ _ ⟨k, _, hk⟩ => ⟨k, Nat.ne_of_lt hk.1, hk⟩) hab
+  refine ⟨?_, ?_, sp.keep⟩
+  · rw [sp.val]
+    have : sideSum st.cons st.vars.size (qOf st) st.cons.size v0 = blockSum st.vars (qOf st) bid := by
+      unfold sideSum blockSum
+      apply sumTo_congr
+      intro x hx
+      by_cases hbx : blk st.vars x = bid
+      · rw [if_pos hbx, if_pos (toDummy (hinv.conn v0 x hv0 hx (hb.trans hbx.symm)))]
+      · rw [if_neg hbx, if_neg]
+        intro hr
+        exact hbx ((hinv.reach_blk hr).symm.trans hb)
+    rw [this, hstat]
+  · intro j hj ha hbl
+    have hae : AE st.cons j (st.cons[j]!).l (st.cons[j]!).r := ⟨hj, ha, Or.inl ⟨rfl, rfl⟩⟩
+    have hbr : blk st.vars (st.cons[j]!).r = bid := by rw [← (hinv.tight j hj ha).1]; exact hbl
+    exact sp.done j _ _ hae (Nat.ne_of_lt hj)
+      (toDummy (hinv.conn _ _ hv0 (hinv.l_lt j hj) (hb.trans hbl.symm)))
+      (toDummy (hinv.conn _ _ hv0 (hinv.r_lt j hj) (hb.trans hbr.symm)))
+
+end Root
+
 end AdaptaVerif.Lemmas.VpscKktDfdv
